@@ -52,6 +52,8 @@ type GenesisCfg struct {
 	Override map[string]json.RawMessage
 	DB       dbm.DB
 	BuiltinDids string
+	// RawGenesis, when set, is used as the complete application genesis (export/import round trip)
+	RawGenesis saoapp.GenesisState
 }
 
 type Chain struct {
@@ -219,6 +221,9 @@ func NewChain(cfg GenesisCfg) *Chain {
 		c.Vals = append(c.Vals, MakeValidator(i))
 	}
 	gs := BuildGenesis(app, enc, cfg, c.Accounts, c.Vals)
+	if cfg.RawGenesis != nil {
+		gs = cfg.RawGenesis
+	}
 	stateBytes, err := json.Marshal(gs)
 	if err != nil {
 		panic(err)
